@@ -1,10 +1,13 @@
 (* C43 — Content filters agree with git.  Statements only; proofs are in Proofs*.v.
    Model.v = gix-filter (eol::{Stats, convert_to_git, convert_to_worktree}, ident::{undo, apply},
    pipeline::{Configuration::at_path, convert_to_git, convert_to_worktree});  Spec.v = git's convert.c.
-   [cfg_to_git], [digest_to_action], [rt_to_flags], [to_text_stat] translate gitoxide's configuration,
-   attribute digest, round-trip mode and statistics record into git's (ProofsEol.v, definitions only). *)
+   Translations of gitoxide's types into git's (definitions in ProofsEol.v / ProofsPipe.v):
+     cfg_to_git        core.autocrlf / core.eol            digest_to_action   AttributesDigest -> crlf_action
+     rt_to_flags       CrlfRoundTripCheck -> conv_flags    to_text_stat       Stats -> struct text_stat
+     result_of         Ok(false) / Ok(true)+buf / Err(RoundTrip) -> Unchanged / Changed b / Die; None = panic or hang
+     pipe_result       the bytes read back from the pipeline, or which round-trip error; None = panic or hang *)
 From GixV.Base Require Import Bytes BytesFacts Outcome.
-From GixV.C43 Require Import Model Spec ProofsEol.
+From GixV.C43 Require Import Model Spec ProofsEol ProofsWt ProofsPipe.
 Local Open Scope N_scope.
 
 (* the statistics gathered over any byte string are git's gather_stats, including the trailing ^Z rule *)
@@ -21,6 +24,11 @@ Theorem attributes_digest_is_git : forall a c,
   convert_attrs (cfg_to_git c) a = (digest_to_action (at_path_digest a c), apply_ident_filter a).
 Proof. exact at_path_git. Qed.
 
+(* the "would checkout add CRs" decision is git's, for all statistics, digests and configurations *)
+Theorem will_convert_is_git : forall s d c,
+  will_convert_lf_to_crlf s d c = g_will_convert_lf_to_crlf (cfg_to_git c) (to_text_stat s) (digest_to_action d).
+Proof. exact will_convert_git. Qed.
+
 (* CRLF -> LF (to-git) conversion: for every content, digest, index blob, core.safecrlf mode and config,
    gitoxide returns git's bytes / "unchanged" / the same round-trip failure; it never panics *)
 Theorem eol_to_git_is_git : forall src d idx rt c,
@@ -28,8 +36,80 @@ Theorem eol_to_git_is_git : forall src d idx rt c,
   Some (crlf_to_git (cfg_to_git c) idx src (digest_to_action d) (rt_to_flags rt)).
 Proof. exact ProofsEol.eol_to_git_is_git. Qed.
 
-(* non-vacuity: the former defect's witness is converted now, as git does *)
+(* LF -> CRLF (to-worktree) conversion: the same for every content, digest and config; the
+   find_byteset loop never indexes out of bounds and terminates within length+1 iterations *)
+Theorem eol_to_worktree_is_git : forall src d c,
+  result_of (eol_convert_to_worktree src d c) = Some (crlf_to_worktree (cfg_to_git c) src (digest_to_action d)).
+Proof. exact ProofsWt.eol_to_worktree_is_git. Qed.
+
+(* Pipeline::convert_to_git: git's stage order (eol, then ident) with git's eol stage, for all inputs *)
+Theorem to_git_stages_are_git : forall src a c rt idx,
+  pipe_result (pipeline_to_git src a c rt idx) =
+  match crlf_to_git (cfg_to_git c) idx src (digest_to_action (at_path_digest a c)) (rt_to_flags rt) with
+  | Die w => Some (inr w)
+  | Unchanged => if apply_ident_filter a then undo_stage src else Some (inl src)
+  | Changed b => if apply_ident_filter a then undo_stage b else Some (inl b)
+  end.
+Proof. exact to_git_stages. Qed.
+
+(* to_git_is_git, without the ident attribute: the bytes `git hash-object --path` stores *)
+Theorem to_git_is_git_without_ident : forall src a c rt idx,
+  apply_ident_filter a = false ->
+  pipe_result (pipeline_to_git src a c rt idx) = Some (convert_to_git (cfg_to_git c) a (rt_to_flags rt) idx src).
+Proof. exact to_git_is_git_no_ident. Qed.
+
+(* the full statement; its only unproved ingredient is "ident::undo = ident_to_git" (tested, not proved) *)
+Definition to_git_is_git_full_statement : Prop := forall src a c rt idx,
+  pipe_result (pipeline_to_git src a c rt idx) = Some (convert_to_git (cfg_to_git c) a (rt_to_flags rt) idx src).
+Theorem to_git_is_git_partial :
+  (forall s, undo_stage s = Some (inl (ident_to_git s true))) -> to_git_is_git_full_statement.
+Proof. exact to_git_is_git_given_undo. Qed.
+
+(* to_worktree_is_git: FALSE of the code when the ident filter expands something (two known classes:
+   `$Id: <hex>$` instead of `$Id: <hex> $`, expanded ids left alone) ... *)
+Theorem to_worktree_is_git_refuted :
+  exists hex src a c,
+    pipe_result (pipeline_to_worktree hex src a c) <> Some (inl (convert_to_working_tree (cfg_to_git c) a hex src)).
+Proof. exact to_worktree_refuted. Qed.
+
+(* ... and true everywhere else: the bytes `git checkout` writes *)
+Theorem to_worktree_is_git_except_known : forall hex src a c,
+  known_towt a src = false ->
+  pipe_result (pipeline_to_worktree hex src a c) = Some (inl (convert_to_working_tree (cfg_to_git c) a hex src)).
+Proof. exact ProofsPipe.to_worktree_is_git_except_known. Qed.
+
+(* ident::apply returns for every input: no panic, and the loop needs at most length+1 iterations *)
+Theorem ident_apply_total : forall hex src, exists r, ident_apply hex src = Ok r.
+Proof. exact ProofsPipe.ident_apply_total. Qed.
+
+(* ident::undo returns for every input: `cursor[maybe_end]` is in bounds, both loops terminate within their fuel;
+   with it, the to-git pipeline never panics or hangs on any input *)
+Theorem ident_undo_total : forall src, exists r, ident_undo src = Ok r.
+Proof. exact ProofsPipe.ident_undo_total. Qed.
+
+(* ---- non-vacuity ------------------------------------------------------------------------------------- *)
+(* the former defect's witness is converted now, as git does *)
 Example eof_witness :
   eol_convert_to_git (bs "a" ++ [x0d; x0a; x1a]) TextAuto None None {| auto_crlf := AcDisabled; cfg_eol := None |}
   = Ok (Some (bs "a" ++ [x0a; x1a])).
+Proof. vm_compute. reflexivity. Qed.
+
+(* hypotheses of the implications are satisfiable by inputs on which something happens *)
+Example without_ident_example :
+  let a := {| a_crlf := Unspecified; a_ident := Unspecified; a_eol := AValue (bs "crlf"); a_text := AValue (bs "auto") |} in
+  let c := {| auto_crlf := AcDisabled; cfg_eol := None |} in
+  apply_ident_filter a = false /\
+  pipeline_to_git (bs "a" ++ [x0d; x0a]) a c (Some RtFail) None = Ok (bs "a" ++ [x0a]) /\
+  pipeline_to_git (bs "a" ++ [x0a]) a c (Some RtFail) None = Err RoundTripLf.
+Proof. vm_compute. repeat split. Qed.
+
+Example except_known_example :
+  let a := {| a_crlf := Unspecified; a_ident := ASet; a_eol := AValue (bs "crlf"); a_text := ASet |} in
+  let c := {| auto_crlf := AcDisabled; cfg_eol := None |} in
+  let src := bs "$Id" ++ [x0a] ++ bs "x" in
+  known_towt a src = false /\ pipeline_to_worktree [] src a c = Ok (bs "$Id" ++ [x0d; x0a] ++ bs "x").
+Proof. vm_compute. split; reflexivity. Qed.
+
+Example undo_example :
+  ident_undo (bs "a $Id: 0123 $ b $Id:" ++ [x0a] ++ bs "$") = Ok (Some (bs "a $Id$ b $Id:" ++ [x0a] ++ bs "$")).
 Proof. vm_compute. reflexivity. Qed.
